@@ -67,7 +67,7 @@ def make_entry(rng, w, d, name, kind=None, mounts=()):
     # directories created there would count as changes of the link's target)
     mounts = [m for m in mounts if not (d == m or d.startswith(m + b"/")) and m != R + b"/home"]
     kind = kind or rng.choice(["file", "file", "empty", "tree", "tree", "link-file", "link-dir", "link-dangling",
-                               "link-abs"] + (["link-mount"] if mounts else []))
+                               "link-abs", "fifo"] + (["link-mount"] if mounts else []))
     if kind == "link-mount" and not mounts:
         kind = "link-dir"
     p = d + b"/" + name
@@ -75,6 +75,8 @@ def make_entry(rng, w, d, name, kind=None, mounts=()):
         w.file(p, rng.choice([b"data", b"hello\n", b"\x00\xff bin", b"x" * 300]), rng.choice([0o644, 0o600, 0o755, 0o444]))
     elif kind == "empty":
         w.file(p, b"")
+    elif kind == "fifo":
+        w.fifo(p, rng.choice([0o644, 0o600]))
     elif kind == "tree":
         w.dir(p, rng.choice([0o755, 0o700]))
         w.file(p + b"/in1", b"one")
@@ -172,10 +174,13 @@ def spell(rng, w, entry, cwd, kind):
     return rel, "rel"
 
 
+HOME_NAMES = [b"u", b"u", b"u", b"jo(e", b"a[b", b"c+d", b"info", b"my info", b"{x}", b"$HOME"]
+
+
 def gen_put_world(rng, profile="mixed"):
     w = W()
     uid = rng.choice([0, 1000, 1000, 65534])
-    home = w.dir(R + b"/home/u")
+    home = w.dir(R + b"/home/" + rng.choice(HOME_NAMES))
     vols = volume_layout(rng, w, uid, profile)
     env = {"HOME": home}
     x = rng.random()
@@ -263,6 +268,23 @@ def gen_put_world(rng, profile="mixed"):
             s = s.rstrip(b"/") + b"/" * rng.randint(0, 3)
         args.append(s)
         meta.append({"class": "entry", "kind": kind, "spelling": sp, "entry": d + b"/" + name})
+    if profile == "links" and len(vols) > 1 and rng.random() < 0.12:
+        # an entry reached through a link to a directory on another volume, then that link itself with trailing slashes
+        # (whatever one argument taught the run about a directory, the next one names the link, not where it leads)
+        tv = rng.choice(vols[1:])
+        tgt = tv + b"/stuff/tgt-dir"
+        w.file(tgt + b"/inside", b"reached through the link")
+        w.file(tgt + b"/keep", b"stays")
+        lk = home + b"/work/lk-cross"
+        if lk not in w.nodes:
+            w.dir(home + b"/work")
+            w.link(lk, tgt)
+            rel = cwd == home and rng.random() < 0.5
+            a1 = (b"work/lk-cross" if rel else lk) + b"/inside"
+            a2 = (b"work/lk-cross" if rel else lk) + b"/" * rng.randint(1, 2)
+            args = [a1, a2] + args[:2]
+            meta = [{"class": "entry", "kind": "file", "spelling": "via-link-parent", "entry": tgt + b"/inside"},
+                    {"class": "entry", "kind": "link-dir", "spelling": "abs", "entry": lk}] + meta[:2]
     # arguments must designate unrelated entries: drop a mount-point argument when another entry lives below it
     keep = []
     for a, mt in zip(args, meta):
@@ -350,6 +372,12 @@ def gen_put_world(rng, profile="mixed"):
                         w.file(lex + b"/files/" + nm, b"decoy payload: nobody named this directory")
                         w.file(lex + b"/info/" + nm + b".trashinfo", b"[Trash Info]\nPath=/decoy\nDeletionDate=2020-01-01T00:00:00\n", 0o600)
                         w.file(lex + b"/files/" + nm + b"_1/inner", b"decoy dir")
+    if (opts.get("homeFallback") and env.get("TRASH_ENABLE_HOME_FALLBACK") == b"1") or \
+            any(m_.get("spelling") == "symlink-dotdot" for m_ in meta):
+        # where the move may be a copy (home fallback; the lexical-'..' finding, which trashes across volumes) a named pipe
+        # is refused by shutil - that is the copy's business, not this model's: plain empty files there
+        for n_ in w.nodes.values():
+            n_.pop("special", None)
     stdin = None
     if opts.get("mode") == "interactive":
         replies = [rng.choice([b"y", b"Y", b"yes", b"n", b"", b"x", b"N", b" y"]) for _ in range(rng.randint(0, nargs))]
@@ -368,14 +396,18 @@ DATES = ["2000-01-01T00:00:00\x0c", "2000-01-01T00:00:00\x1d", "2000-01-01T00:00
          "2001-01-01T12:00:00+0100", "2001-01-01T12:00:00Z", "2001-01-01T12:00:00-05:00", "2001-01-01T12:00:00 UTC"]
 BAD_DATES = ["2024-02-30T00:00:00", "yesterday", "", "2024-03-01", "2024-03-01T12:00:60", "2024-03-01T12:00:00 ", "2002-02-02T02:02:02+0000", "2002-02-02T02:02:02.000"]
 MALFORMED = ["non-trashinfo", "empty", "truncated", "binary", "non-utf8", "no-path", "no-date", "bad-date", "info-only",
-             "orphan", "odd-stem", "info-is-dir", "info-dangling-link", "dup-keys-crlf", "double-suffix"]
+             "orphan", "long-orphan", "odd-stem", "info-is-dir", "info-dangling-link", "dup-keys-crlf", "double-suffix"]
 ORIGIN_NAMES = [b"report.txt", b"a b", b"foo", b"foobar", b"foo.o", b"FOO", b"caf\xc3\xa9", b"x%y", b"new\nline", b"-dash", b"d1",
                 b"notes", b"\xff\xfe", b"q?", b"[b]", b"*star", b"...", b"....", b"cafe\xcc\x81"]
 
 
+# 7 levels of 80 three-byte characters: 1.7 KB on disk, 5 KB once percent-encoded in a .trashinfo
+DEEP_AREA = b"".join(b"/" + "\u65e5\u672c".encode() * 40 for _ in range(7))
+
+
 def truthy_date(x):
     import re
-    return bool(re.match(r"^\d{4}-\d\d-\d\dT\d\d:\d\d:\d\d$", x))
+    return bool(re.match(r"^(\d{4}-\d\d-\d\dT\d\d:\d\d:\d\d|@AGE:-?\d+@)$", x))
 
 
 def payload(rng, w, p, sentinel):
@@ -461,6 +493,9 @@ def add_malformed(rng, w, tdir, kind, i, good_names=None):
         w.file(info + n + b".trashinfo", b"[Trash Info]\nPath=" + R + b"/w/infoonly%d\nDeletionDate=2020-01-01T00:00:00\n" % i)
     elif kind == "orphan":
         w.file(tdir + b"/files/" + rng.choice([n, b"orphan dir/x", b"foo"]), b"orphan")
+    elif kind == "long-orphan":
+        # a payload without an info file whose name is so long that "<name>.trashinfo" is no valid file name any more
+        w.file(tdir + b"/files/" + b"L" * (246 + i % 10), b"orphan with a long name")
     elif kind == "odd-stem":
         w.file(info + rng.choice([b".trashinfo", b"..trashinfo", b"...trashinfo"]),
                b"[Trash Info]\nPath=" + R + b"/w/odd\nDeletionDate=2020-01-01T00:00:00\n")
@@ -485,11 +520,11 @@ def gen_trash_world(rng, cmd, profile="mixed"):
     """profile: 'mixed' | 'clean' (well-formed entries only) | 'malformed' (many bad neighbours)"""
     w = W()
     uid = rng.choice([0, 1000, 1000, 65534])
-    home = w.dir(R + b"/home/u")
+    home = w.dir(R + b"/home/" + rng.choice(HOME_NAMES))
     vols = volume_layout(rng, w, uid, profile)
     env = {"HOME": home}
     if rng.random() < 0.2:
-        env["XDG_DATA_HOME"] = rng.choice([home + b"/xdg", b""])
+        env["XDG_DATA_HOME"] = rng.choice([home + b"/xdg", b"", home + b"/my.info", R + b"/data/xinfo"])
     sentinel = w.file(R + b"/outside/sentinel", b"must survive")
     w.file(R + b"/outside/other", b"also")
     w.dir(R + b"/outside/ro", 0o555)
@@ -531,6 +566,11 @@ def gen_trash_world(rng, cmd, profile="mixed"):
                 w.file(lex + b"/files/decoy", b"decoy payload")
     names = list(ORIGIN_NAMES)
     rng.shuffle(names)
+    # trash-empty without TRASH_DATE: the real clock, read in the user's time zone (a fixed offset far from UTC).  Dates are
+    # ages relative to the moment of the run ("@AGE:<seconds>@", filled in when the world is evaluated, see readcheck),
+    # at least three hours away from every whole number of days
+    real_clock = cmd == "empty" and rng.random() < 0.15
+    age_dates = ["@AGE:%d@" % -(k * 86400 + h * 3600) for k in (0, 1, 2, 7, 30) for h in (3, 12, 21)]
     entries = []
     kinds = []
     k = 0
@@ -544,27 +584,59 @@ def gen_trash_world(rng, cmd, profile="mixed"):
         for _ in range(ngood):
             nm = names[k % len(names)]
             k += 1
-            area = (base if base is not None else R) + rng.choice([b"/w", b"/w/deep/er", b"/home/u/docs"] if base is None else [b"/stuff", b"/stuff/sub"])
+            area = (base if base is not None else R) + rng.choice(
+                [b"/w", b"/w/deep/er", b"/home/u/docs", b"/w/caf\xc3\xa9-d", b"/w/cafe\xcc\x81-d", DEEP_AREA] if base is None else
+                [b"/stuff", b"/stuff/sub", b"/stuff/caf\xc3\xa9-d", b"/stuff/cafe\xcc\x81-d", DEEP_AREA])
             loc = area + b"/" + nm
             tname = nm + rng.choice([b"", b"", b"_1", b"_2"])
             if tdir + b"/info/" + tname + b".trashinfo" in w.nodes:
                 continue
-            date = rng.choice(DATES)
+            date = rng.choice(age_dates if real_clock else DATES)
             rec = add_good(rng, w, tdir, base, tname, loc, date, sentinel, kinds)
             entries.append({"tdir": tdir, "name": tname, "loc": loc, "rec": rec, "date": date, "base": base})
             if rng.random() < 0.12:
                 # the same original location trashed a second time (another generation of the file)
-                d2 = rng.choice([x for x in DATES if truthy_date(x) and x != date])
+                d2 = rng.choice([x for x in (age_dates if real_clock else DATES) if truthy_date(x) and x != date])
                 if truthy_date(date) and rng.random() < 0.4:
                     d2 = date           # trashed twice within the same second: two entries, identical line
                 t2 = nm + b"_%d" % rng.randint(3, 9)
                 if tdir + b"/info/" + t2 + b".trashinfo" not in w.nodes:
                     rec2 = add_good(rng, w, tdir, base, t2, loc, d2, sentinel, kinds)
                     entries.append({"tdir": tdir, "name": t2, "loc": loc, "rec": rec2, "date": d2, "base": base, "dup": True})
+        if rng.random() < 0.25:
+            w.file(tdir + b"/directorysizes", b"4096 1600000000 gone-dir\n120 1600000001 also%20gone\nnot a line\n")
         nbad = {"clean": 0, "mixed": rng.choice([0, 0, 1, 2]), "malformed": rng.choice([2, 3, 5])}[profile]
         for j in range(nbad):
             add_malformed(rng, w, tdir, rng.choice(MALFORMED), 100 * len(entries) + j,
                           good_names=[e["name"] for e in entries if e["tdir"] == tdir])
+    # canonically equivalent but different names: two entries whose names, and two whose directories, differ only in the
+    # Unicode normalisation form (NFC / NFD).  They are different paths.
+    nf_pair = []
+    made = [(t, b) for t, b in tdirs if t + b"/info" in w.nodes]
+    if made and rng.random() < 0.15:
+        tdir, base = rng.choice(made)
+        area = (base if base is not None else R) + b"/nf"
+        for tn, loc in ((b"nfc-name", area + b"/caf\xc3\xa9.txt"), (b"nfd-name", area + b"/cafe\xcc\x81.txt"),
+                        (b"nfc-dir", area + b"/r\xc3\xa9sum\xc3\xa9/cv"), (b"nfd-dir", area + b"/re\xcc\x81sume\xcc\x81/cv2")):
+            if tdir + b"/info/" + tn + b".trashinfo" in w.nodes:
+                continue
+            date = rng.choice([x for x in (age_dates if real_clock else DATES) if truthy_date(x)])
+            rec = add_good(rng, w, tdir, base, tn, loc, date, sentinel, kinds)
+            e = {"tdir": tdir, "name": tn, "loc": loc, "rec": rec, "date": date, "base": base}
+            entries.append(e)
+            nf_pair.append(e)
+    # the same location recorded twice, once with a date and once without a readable one: a sort key built from both
+    # fields must order them all the same
+    undated_twin = False
+    dated = [e for e in entries if truthy_date(e["date"]) and not e["date"].startswith("@")]
+    if cmd == "restore" and dated and rng.random() < 0.12:
+        e = rng.choice(dated)
+        tn = e["name"] + b"_u"
+        if e["tdir"] + b"/info/" + tn + b".trashinfo" not in w.nodes:
+            d2 = rng.choice(["", "garbage", "2024-02-30T00:00:00", "2024-03-01"])
+            rec2 = add_good(rng, w, e["tdir"], e["base"], tn, e["loc"], d2, sentinel, kinds)
+            entries.append({"tdir": e["tdir"], "name": tn, "loc": e["loc"], "rec": rec2, "date": d2, "base": e["base"], "dup": True})
+            undated_twin = True
     # some destinations already exist (restore must refuse / overwrite)
     for e in entries:
         r = rng.random()
@@ -587,13 +659,13 @@ def gen_trash_world(rng, cmd, profile="mixed"):
         if custom and rng.random() < 0.7:
             opts["userDirs"] = [custom_spelling or custom] + ([tdirs[0][0]] if rng.random() < 0.3 else [])
     elif cmd == "restore":
-        opts["sort"] = rng.choice(["date", "date", "path", "none"])
+        opts["sort"] = rng.choice(["date", "date", "path", "none"] if not undated_twin else ["path", "path", "path", "date", "none"])
         if custom and rng.random() < 0.7:
             opts["trashDir"] = custom_spelling or custom
         if rng.random() < 0.3:
             opts["overwrite"] = True
         if rng.random() < 0.4 and entries:
-            e = rng.choice(entries)
+            e = rng.choice(nf_pair if nf_pair and rng.random() < 0.7 else entries)
             opts["path"] = rng.choice([os.path.dirname(e["loc"]), e["loc"], os.path.dirname(os.path.dirname(e["loc"])), b"/", b"w", b"."])
             if rng.random() < 0.25:
                 # the same directory named through a symbolic link: entries are matched by their recorded text, not by
@@ -629,6 +701,14 @@ def gen_trash_world(rng, cmd, profile="mixed"):
             opts["ttyDefault"] = True           # neither -i nor -f and stdin is not a terminal: no question
         if custom and rng.random() < 0.6:
             opts["userDirs"] = [custom_spelling or custom]
+        if real_clock:
+            del env["TRASH_DATE"]
+            off = rng.choice([9, -8, 12, -11, 0])
+            env["TZ"] = b"XXX%+d" % -off           # POSIX TZ: "XXX-9" is nine hours EAST of Greenwich
+            opts["realClock"] = {"utcOffsetHours": off}
+            opts["days"] = rng.choice([0, 1, 2, 7, 30]) if "days" in opts or rng.random() < 0.8 else None
+            if opts["days"] is None:
+                del opts["days"]
         if not opts.get("ttyDefault") and rng.random() < 0.25:
             # -f and -i together: as with rm, the last one wins
             if opts.get("interactive"):
@@ -636,10 +716,14 @@ def gen_trash_world(rng, cmd, profile="mixed"):
             else:
                 opts["flags"] = rng.choice([[b"-i", b"-f"], [b"-if"], [b"--interactive", b"-f"], [b"-f", b"-i", b"-f"]])
     elif cmd == "rm":
-        pats = [b"*", b"foo", b"foo*", b"*.o", b"F*", b"?oo", b"[fF]oo", b"/SBX/*", b"*/w/*", b"nomatch", b"a b", b"caf*", b"[!f]*", b"*\n*", b"d1"]
+        pats = [b"*", b"foo", b"foo*", b"*.o", b"F*", b"?oo", b"[fF]oo", b"/SBX/*", b"*/w/*", b"nomatch", b"a b", b"caf*", b"[!f]*", b"*\n*", b"d1",
+                b"*.txt", b"*r", b"*s", b"*[!o]"]
         if entries:
             e = rng.choice(entries)
             pats += [os.path.basename(e["loc"]), e["loc"], os.path.dirname(e["loc"]) + b"/*"]
+        if nf_pair and rng.random() < 0.8:
+            e = rng.choice(nf_pair)
+            pats = [os.path.basename(e["loc"]), e["loc"], os.path.dirname(e["loc"]) + b"/*", b"caf\xc3\xa9*", b"*/r\xc3\xa9sum\xc3\xa9/*"]
         args = [rng.choice(pats)]
     extra = {}
     if rng.random() < 0.2 and len(w.mounts) > 1:
@@ -652,12 +736,12 @@ def gen_trash_world(rng, cmd, profile="mixed"):
     return world
 
 
-def gen_fault_world(rng):
+def gen_fault_world(rng, where=None, force=None):
     """one argument, rename-able into the first or a later candidate: the world of a C17 fault sweep"""
     w = W()
     uid = rng.choice([0, 1000])
-    home = w.dir(R + b"/home/u")
-    where = rng.choice(["home", "top", "alt", "alt-after-insecure-top", "custom"])
+    home = w.dir(R + b"/home/" + rng.choice(HOME_NAMES))
+    where = rng.choice(["home", "top", "alt", "alt-after-insecure-top", "custom"]) if where is None else where
     env = {"HOME": home}
     opts = {}
     if where == "home":
@@ -685,6 +769,12 @@ def gen_fault_world(rng):
         w.file(t + b"/files/" + name, b"older")
     cwd = rng.choice([d, home])
     arg = rng.choice([d + b"/" + name, relpath(d + b"/" + name, cwd)])
+    if (rng.random() < 0.35) if force is None else force:
+        # -f only silences "does not exist" for arguments that do not exist: a failure to trash an existing entry is
+        # reported all the same, whatever the errno
+        opts["mode"] = "force"
+    if rng.random() < 0.2:
+        opts["verbose"] = rng.choice([1, 2])
     meta = [{"class": "entry", "kind": kind, "spelling": "abs" if arg.startswith(b"/") else "rel", "entry": d + b"/" + name,
              "where": where}]
     return w.world(env=env, uid=uid, cwd=cwd, cmd="put", args=[arg], opts=opts, argv=put_argv(opts, [arg]), stdin=None,
